@@ -49,18 +49,10 @@ Definition chk_lte (tol : Q) (a : vec Q) (min_ : mat Q) (w : vec Q) (v : mat Q)
   vec_eq l lte && vec_eq o orient &&
   vec_close tol (convert_lte_local2global QOps lte orient) full.
 
-Definition chk_align (size : Z) (Ms outs : list (smatrix Q)) : bool :=
-  match align_nnz QOps size Ms with
+(* inputs in storage order (any order, duplicates allowed); outputs as read
+   back in canonical order; exact comparison *)
+Definition chk_align (Ms outs : list (smatrix Q)) : bool :=
+  match align_nnz QOps Ms with
   | Some As => all2 smat_eq As outs
-  | None => false
-  end.
-
-(* bit-exact stream: same pattern, values within the stated rounding bound of
-   (s + D) - D in binary64 (tol = 0 demands exact equality) *)
-Definition smat_close (tol : Q) (A B : smatrix Q) : bool :=
-  all2 (fun x y => Z.eqb (fst x) (fst y) && q_close tol (snd x) (snd y)) A B.
-Definition chk_align_tol (tol : Q) (size : Z) (Ms outs : list (smatrix Q)) : bool :=
-  match align_nnz QOps size Ms with
-  | Some As => all2 (smat_close tol) As outs
   | None => false
   end.
